@@ -9,6 +9,10 @@ package main
 //   desc     children of a forbidden header delivered by a peer that never sends the forbidden header itself
 //   cpbad    a header that contradicts the checkpoint at its height, at every position of a batch
 //   cpok     honest linear chains under 0..n checkpoints (also one at the tip): the cursor advances, the last request is unbounded
+//   forb-twice  the SAME forbidden hash reaches the service again: from a second / third peer (as the first header of a reply, or
+//            at every position of an unsolicited batch), both engines (the experimental engine over successive connections)
+//   cp-overshoot  a headers message that runs 1..k headers PAST the expected checkpoint (a conformant reply never does), then
+//            the rest of the sender's chain, which contradicts the NEXT checkpoint (or honestly matches it)
 //   random   seeded mixtures of the above ingredients
 
 import (
@@ -230,6 +234,81 @@ func runC07(c *Ctx) error {
 							Nodes: []*nodeSpec{{P: 1, Cap: cp, Chain: seqInts(2, n)}}, Cmds: []string{"C1", "R60"}}
 						if err := g.do(sc, "cpok"); err != nil {
 							return err
+						}
+					}
+				}
+			}
+		}
+	}
+
+	// ---- forb-twice: the same forbidden hash is delivered again by other connections ----
+	for _, eng := range engines {
+		for a := 0; a <= 1; a++ {
+			for k := 2; k <= c.Pick(3, 5); k++ {
+				for j := 1; j <= k; j++ {
+					u, pre, _, bad := forkUniverse(a, 1, k, tsOld)
+					u.Forbidden = []int{bad[j-1]}
+					full := catInts(pre, bad)
+					for _, cp1 := range []int{2000, 1} {
+						// P1 delivers [.., F, D..]; P2 (same chain) is asked from the tip and answers [F, D..];
+						// P3 never asked, pushes the whole branch: F at position j of its batch
+						n1 := &nodeSpec{P: 1, Cap: cp1, Chain: full}
+						n2 := &nodeSpec{P: 2, Cap: 2000, Chain: full}
+						n3 := &nodeSpec{P: 3, Cap: 2000, Chain: pre, Reserve: bad}
+						push := fmt.Sprintf("A3.%d.h", k)
+						var scripts [][]string
+						if eng == "d" {
+							scripts = [][]string{{"C1", "R40", "C2", "R40"}, {"C1", "C2", "R60"}, {"C1", "R40", "C3", push, "R40"},
+								{"C1", "R40", "C2", "R40", "C3", push, "R40"}, {"C3", push, "R40", "C1", "R40", "C2", "R40"}}
+						} else {
+							scripts = [][]string{{"C1", "R40", "C2", "R40"}, {"C1", "R40", "C3", push, "R40"}, {"C1", "R40", "C2", "R40", "C3", push, "R40"}}
+						}
+						for _, cmds := range scripts {
+							sc := &Scenario{Eng: eng, U: u, Nodes: []*nodeSpec{n1, n2, n3}, Cmds: cmds}
+							if err := g.do(sc, "forb-twice"); err != nil {
+								return err
+							}
+						}
+					}
+				}
+			}
+		}
+	}
+
+	// ---- cp-overshoot: a headers message runs past the expected checkpoint ----
+	for _, eng := range engines {
+		for h1 := 1; h1 <= 3; h1++ {
+			for over := 1; over <= c.Pick(2, 3); over++ {
+				for gap := 1; gap <= 2; gap++ {
+					h2 := h1 + over + gap // the next checkpoint's height, beyond the overshoot
+					n := h2 + 2
+					// good chain ids 100..; the sender follows it up to h2-1 and then its own branch 200..
+					u := &History{}
+					u.Subs = append(u.Subs, linearSubs(100, genesisID, n, bitsW2, tsOld)...)
+					u.Subs = append(u.Subs, linearSubs(200, 100+h2-2, 3, bitsW2, tsOld)...)
+					good := seqInts(100, n)
+					cps := []cpSpec{{h1, good[h1-1]}, {h2, good[h2-1]}}
+					for _, contradict := range []bool{true, false} {
+						var tail []int
+						if contradict {
+							tail = catInts(good[h1+over:h2-1], seqInts(200, 3))
+						} else {
+							tail = good[h1+over:]
+						}
+						first := good[h1-1 : h1+over] // the checkpoint header and `over` more
+						node := &nodeSpec{P: 1, Cap: 2000, Chain: good[:h1-1], Reserve: catInts(first, tail)}
+						cmds := []string{"C1", "R20", fmt.Sprintf("A1.%d.h", len(first)), "R20", fmt.Sprintf("A1.%d.h", len(tail)), "R20"}
+						sc := &Scenario{Eng: eng, Cps: cps, U: u, Nodes: []*nodeSpec{node}, Cmds: cmds}
+						if err := g.do(sc, "cp-overshoot"); err != nil {
+							return err
+						}
+						if eng == "d" {
+							// a second, conformant peer with the good chain takes over afterwards
+							n2 := &nodeSpec{P: 2, Cap: 2000, Chain: good}
+							sc := &Scenario{Eng: eng, Cps: cps, U: u, Nodes: []*nodeSpec{node, n2}, Cmds: append(append([]string{}, cmds...), "C2", "R60")}
+							if err := g.do(sc, "cp-overshoot"); err != nil {
+								return err
+							}
 						}
 					}
 				}
